@@ -295,13 +295,19 @@ func (j *judge) peer(pi int, ps *c10gen.PeerSpec, pr c10rt.PeerReport) {
 		j.evals++
 		core.Add("probes_"+pb.Class, 1)
 		scen := ps.Class + ":" + pb.Phase + ":" + pb.Class
-		var hEv, uEv []c10rt.Event
+		var hEv, uEv, gEv []c10rt.Event
 		for _, e := range pb.Events {
-			if e.Kind == "call" || e.Kind == "push" {
+			switch e.Kind {
+			case "call", "push":
 				hEv = append(hEv, e)
-			} else {
+			case "guard":
+				gEv = append(gEv, e)
+			default:
 				uEv = append(uEv, e)
 			}
+		}
+		if pb.Phase == "K" {
+			core.Add("concurrent_requests", 1)
 		}
 		core.Add("handler_invocations_observed", int64(len(hEv)))
 		core.Add("unknown_handler_invocations_observed", int64(len(uEv)))
@@ -340,6 +346,16 @@ func (j *judge) peer(pi int, ps *c10gen.PeerSpec, pr c10rt.PeerReport) {
 		core.Distinct("nontrivial", j.mapper+"/"+pclass+"/"+pb.Class)
 		// every invocation of a registered handler must be under a name returned for that handler
 		bad := false
+		for _, e := range gEv {
+			bad = true
+			j.v(scen, pclass, "controller-shared", fmt.Sprintf("%s mapper: %s %q: the controller object of handler %s was in use by two invocations at once (%s)", j.mapper, strings.ToUpper(pb.Kind), disp, e.Tag, e.SM), w)
+		}
+		for _, e := range hEv {
+			if e.Arg != pb.ID {
+				bad = true
+				j.v(scen, pclass, "foreign-argument", fmt.Sprintf("%s mapper: %s %q: handler %s ran with the context of request %s (metadata) but with the argument of request %q", j.mapper, strings.ToUpper(pb.Kind), disp, e.Tag, pb.ID, e.Arg), w)
+			}
+		}
 		for _, e := range hEv {
 			if e.Kind != pb.Kind {
 				bad = true
@@ -366,16 +382,26 @@ func (j *judge) peer(pi int, ps *c10gen.PeerSpec, pr c10rt.PeerReport) {
 			switch {
 			case len(hEv) == 0:
 				sym := "registered-name-not-dispatched"
-				if len(uEv) > 0 {
+				if pb.Phase == "K" && pb.Kind == "call" && pb.Code == 0 && pb.Result != "" && (pb.RArg != pb.ID || pb.RMeta != pb.ID) {
+					j.v(scen, pclass, "reply-foreign", fmt.Sprintf("%s mapper: CALL %q with request id %s seq %d was never handled under its own id, its caller got the reply handler %s computed for request id %q (argument) / %q (metadata) / seq %d", j.mapper, disp, pb.ID, pb.Seq, pb.Result, pb.RArg, pb.RMeta, pb.RSeq), w)
+					continue
+				}
+				if pb.Phase == "K" {
+					sym = "request-not-handled"
+				} else if len(uEv) > 0 {
 					sym = "registered-name-went-to-unknown-handler"
 				} else if pb.Kind == "call" && pb.Code == erpc.CodeNotFound {
 					sym = "registered-name-not-found"
 				}
 				j.v(scen, pclass, sym, fmt.Sprintf("%s mapper: %s registered in %q returned %q, but %s %q ran no handler (status %d %s)", j.mapper, own.reg.What, own.reg.Group, final, strings.ToUpper(pb.Kind), disp, pb.Code, pb.Msg), w)
+			case pb.Phase == "K" && len(hEv) > 1:
+				j.v(scen, pclass, "request-handled-twice", fmt.Sprintf("%s mapper: %s %q with request id %s was handled %d times (handlers %s, %s)", j.mapper, strings.ToUpper(pb.Kind), disp, pb.ID, len(hEv), hEv[0].Tag, hEv[1].Tag), w)
 			case len(hEv) > 1 || len(uEv) > 0:
 				j.v(scen, pclass, "multiple-handlers", fmt.Sprintf("%s mapper: one %s for %q ran %d handlers and %d unknown-handlers", j.mapper, strings.ToUpper(pb.Kind), disp, len(hEv), len(uEv)), w)
 			case pb.Kind == "call" && (pb.Code != 0 || pb.Result != hEv[0].Tag):
 				j.v(scen, pclass, "wrong-handler", fmt.Sprintf("%s mapper: CALL %q ran handler %s but the caller got status %d result %q", j.mapper, disp, hEv[0].Tag, pb.Code, pb.Result), w)
+			case pb.Kind == "call" && (pb.RArg != pb.ID || pb.RMeta != pb.ID || pb.RSeq != pb.Seq):
+				j.v(scen, pclass, "reply-foreign", fmt.Sprintf("%s mapper: CALL %q with request id %s seq %d was answered by handler %s with the reply of request id %q (argument) / %q (metadata) / seq %d", j.mapper, disp, pb.ID, pb.Seq, pb.Result, pb.RArg, pb.RMeta, pb.RSeq), w)
 			default:
 				if regHits[own] == nil {
 					regHits[own] = map[string]string{}
@@ -385,7 +411,7 @@ func (j *judge) peer(pi int, ps *c10gen.PeerSpec, pr c10rt.PeerReport) {
 			continue
 		}
 		// an unregistered name
-		unknownSet := pb.Phase == "B" || pb.Phase == "S" || (pb.Phase == "C" && pb.Kind == "call")
+		unknownSet := pb.Phase == "B" || pb.Phase == "S" || pb.Phase == "K" || (pb.Phase == "C" && pb.Kind == "call")
 		if !unknownSet {
 			if len(uEv) > 0 { // only possible in phase C: the unknown-CALL-handler answered a push
 				j.v(scen, pclass, "call-push-namespace-shared", fmt.Sprintf("%s mapper: %s %q is not registered and only an unknown-%s-handler is set, but unknown-handler %s (%s) ran", j.mapper, strings.ToUpper(pb.Kind), disp, other, uEv[0].Tag, uEv[0].Kind), w)
@@ -635,9 +661,12 @@ func (j *judge) finish(id string, desc itemDesc, sig string) {
 	}
 }
 
+// concRounds is the number of rounds of the concurrent phase per peer (192 requests per round).
+const concRounds = 18
+
 func runProgram(item, index int, harness, repo string) {
 	size := 30
-	p := c10gen.Generate(*seed, index, size)
+	p := c10gen.Generate(*seed, index, size, concRounds)
 	desc := itemDesc{Class: "program", Item: item, Mapper: p.Mapper, Size: size}
 	id := fmt.Sprintf("prog%03d", index)
 	core.Begin(id, desc)
@@ -720,6 +749,12 @@ func runProgram(item, index int, harness, repo string) {
 			break
 		}
 		j.peer(i, ps, rep.Peers[i])
+		core.Max("concurrent_max_handlers_in_flight", rep.Peers[i].MaxInFlight)
+		core.Max("concurrent_max_invocations_of_one_handler_in_flight", rep.Peers[i].MaxInFlightSame)
+		core.Add("concurrent_invocations_overlapping_same_handler", rep.Peers[i].OverlappedInvocs)
+		if rep.Peers[i].ConcOps > 0 && rep.Peers[i].MaxInFlightSame < 2 {
+			j.incon = append(j.incon, fmt.Sprintf("peer %d (%s): the concurrent phase never had two invocations of one handler in flight", i, ps.Class))
+		}
 		core.Add("registrations", int64(len(rep.Peers[i].Regs)))
 		core.Distinct("peer_classes", p.Mapper+"/"+ps.Class)
 	}
